@@ -203,6 +203,13 @@ def run(ctx, res):
             res.failures.append(dict(signature=fail["signature"], what=fail["what"],
                                      case=dict(cfg=cfg, ops=ops[:fail["step"] + 1]), detail=fail["detail"]))
     res.failures.sort(key=lambda f: len(repr(f["case"])))
+    # the engine thread finishing a run while the replication thread delivers a word about the same run (and the other
+    # way round), the second operation starting at every line of the first: a finished run stays out, announced once
+    import pC05
+    before = len(res.failures)
+    pC05.atomic_half(res)
+    for f in res.failures[before:]:
+        f["case"] = dict(f["case"], two_threads=True)
     res.samples = [dict(cfg=cases[0][0], ops=cases[0][1])]
     mism, errs = common.coq_run_cases("C12", SD.IMPORTS, "run_decider", "(cdesc * list dop)", coq_cases, shard=150)
     res.errors += errs
@@ -229,6 +236,9 @@ def replay(obj):
     if not case:
         print(obj)
         return 0
+    if case.get("two_threads"):
+        import pC05
+        return pC05.replay(dict(obj, case={k: v for k, v in case.items() if k != "two_threads"}))
     cfg, ops = norm_case(case)
     out, _, fail = work((cfg, ops))
     model, _ = common.coq_eval("C12r", SD.IMPORTS, "run_decider %s" % SD.case_coq(cfg, ops))
